@@ -108,4 +108,3 @@ func cmdRun(args []string) int {
 	}
 	return 0
 }
-
